@@ -7,8 +7,11 @@ import (
 	"math/big"
 
 	"github.com/Oneledger/protocol/action"
+	action_gov "github.com/Oneledger/protocol/action/governance"
 	"github.com/Oneledger/protocol/action/transfer"
 	"github.com/Oneledger/protocol/data/balance"
+	"github.com/Oneledger/protocol/data/governance"
+	"github.com/Oneledger/protocol/identity"
 	tmtypes "github.com/tendermint/tendermint/types"
 
 	sv "github.com/Oneledger/protocol/zz_sv"
@@ -97,6 +100,82 @@ func SV_C04_admission_send() {
 	if ok {
 		sv.Assert(nsig == 1, "admitted-with-exactly-the-required-signatures")
 		sv.Assert(okSigs, "admitted-only-with-authentic-signature-over-exact-content")
+		sv.Cover(true, "admitted")
+	}
+	sv.Cover(!ok, "rejected")
+	sv.Observe("ok", ok)
+}
+
+// SV_C04_admission_two_signers: a kind with two required signers (governance
+// vote: the voter account and the validator) and an arbitrary signature list.
+//
+// sv:bounds PROPOSAL_VOTE naming any of 3 parties as voter and as validator (all three are validators); 0..2 signatures (thorough: 0..3); each slot: the key of any party, the signature made over this transaction / over a copy with another memo / 64 zero bytes / the very bytes of the previous slot's signature (a repeated signature)
+// sv:outside the cryptography itself; other key algorithms; the other two-signer kinds (STAKE, UNSTAKE, WITHDRAW share ValidateBasic and the same Signers() shape)
+// sv:goal Validate accepts implies: exactly two signatures, slot 0 by the voter's key and slot 1 by the validator's key, each over exactly this transaction
+func SV_C04_admission_two_signers() {
+	svCurrencyLimit = 1
+	pre := &svVotePre{}
+	svLean = true
+	e := svNewEnv(3, 20, func(e *svEnv) {
+		svPreVote(pre, 0)(e)
+		// all three parties are validators so that any of them can be named
+		if !pre.isVal[2] {
+			p := svParty_(2)
+			v := identity.NewValidator(p.Addr, p.Addr, p.Pub, p.Pub, *balance.NewAmount(1), "nC")
+			v.Power = 1
+			if err := e.app.Context.validators.WithState(e.app.Context.deliver).Set(*v); err != nil {
+				sv.Unreachable("validator")
+			}
+		}
+	})
+	svLean = false
+	voter := sv.Choice("voter", e.n)
+	val := sv.Choice("validator", e.n)
+	raw := svRaw(action.PROPOSAL_VOTE, &action_gov.VoteProposal{ProposalID: svPropID, Address: svParty_(voter).Addr, ValidatorAddress: svParty_(val).Addr, Opinion: governance.OPIN_POSITIVE})
+	tx := action.SignedTx{RawTx: raw}
+	nsig := sv.Choice("nsig", 3+sv.Tier())
+	authentic := make([]bool, 0, 3) // by the required signer's key over this transaction
+	genuine := make([]bool, 0, 3)   // by the slot's own key over this transaction
+	for i := 0; i < nsig; i++ {
+		name := "sig" + string(rune('0'+i))
+		who := sv.Choice(name+".key", e.n)
+		p := svParty_(who)
+		var signed []byte
+		good := false
+		nover := 3
+		if i > 0 {
+			nover = 4
+		}
+		switch sv.Choice(name+".over", nover) {
+		case 0:
+			signed, _ = p.Priv.Sign(raw.RawBytes())
+			good = true
+		case 1:
+			t := raw
+			t.Memo = raw.Memo + "x"
+			signed, _ = p.Priv.Sign(t.RawBytes())
+		case 2:
+			signed = make([]byte, 64)
+		default:
+			// the previous slot's signature bytes again (authentic only if that one
+			// was made by this slot's key over this transaction)
+			signed = tx.Signatures[i-1].Signed
+			good = genuine[i-1] && string(tx.Signatures[i-1].Signer.Data) == string(p.Pub.Data)
+		}
+		need := voter
+		if i == 1 {
+			need = val
+		}
+		genuine = append(genuine, good)
+		authentic = append(authentic, good && (i >= 2 || who == need))
+		tx.Signatures = append(tx.Signatures, action.Signature{Signer: p.Pub, Signed: signed})
+	}
+	ok := e.validate(tx)
+	if ok {
+		sv.Assert(nsig == 2, "admitted-with-exactly-the-two-required-signatures")
+		if nsig >= 2 {
+			sv.Assert(authentic[0] && authentic[1], "each-required-signer-signed-exactly-this-transaction")
+		}
 		sv.Cover(true, "admitted")
 	}
 	sv.Cover(!ok, "rejected")
